@@ -26,7 +26,10 @@ EXTERNALS = {
 }
 
 
-LIBC_CONSTS = {"MAP_ANONYMOUS": 0x20, "MAP_ANON": 0x20, "MAP_PRIVATE": 2, "MAP_JIT": 0x800, "PROT_READ": 1, "PROT_WRITE": 2,
+MACH_TYPES = {"mach_vm_address_t": "u64", "mach_vm_size_t": "u64", "vm_prot_t": "i32", "mach_port_t": "u32", "kern_return_t": "i32"}
+LIBC_CONSTS = {"VM_PROT_READ": 1, "VM_PROT_WRITE": 2, "VM_PROT_EXECUTE": 4, "VM_PROT_COPY": 0x10, "VM_FLAGS_ANYWHERE": 1,
+               "VM_FLAGS_OVERWRITE": 0x4000, "VM_FLAGS_RETURN_DATA_ADDR": 0x100000, "VM_INHERIT_NONE": 2,
+               "MAP_ANONYMOUS": 0x20, "MAP_ANON": 0x20, "MAP_PRIVATE": 2, "MAP_JIT": 0x800, "PROT_READ": 1, "PROT_WRITE": 2,
                "PROT_EXEC": 4, "_SC_PAGESIZE": 30}
 
 
@@ -108,6 +111,8 @@ class Translator:
                 return Ty("list", self.ty(t[2][0][1], generics), None)
             if n in ("FuncPtrInternal", "c_void"):
                 return Ty("int", "usize")
+            if n in MACH_TYPES:
+                return Ty("int", MACH_TYPES[n])
             if n == "PatchGuard":
                 return UNIT
             if n == "RangeInclusive" and t[2]:
@@ -729,6 +734,10 @@ class FnCompiler:
                     del EXTERNALS["PatchGuard::new"]
         if name in ("null_mut", "null") and not e[2]:
             return ("(0 : Nat)", Ty("int", "usize"))
+        if name == "zeroed" and not e[2] and want is not None and want.kind == "int":
+            return (lit_str(0, self.is_signed(want)), want)
+        if name == "mach_task_self" and not e[2]:
+            return ("(0 : Nat)", Ty("int", "u32"))
         if self.tr.iface:
             q = "::".join(segs[-2:])
             if len(segs) >= 2 and segs[-2] == "Self":
@@ -875,6 +884,16 @@ class FnCompiler:
             src, st = self.typed(args[0], cx, Ty("int", "usize"))
             n, nt = self.typed(args[2], cx, Ty("int", "usize"))
             v = cx.bind(f'Rt.extB "read_bytes" [Rt.Val.n (Int.ofNat {src}), Rt.Val.n (Int.ofNat {n})]', "read")
+            cx.let(ln, v)
+            return ("()", UNIT)
+        if name == "mach_vm_remap" and len(args) >= 2 and args[1][0] == "unary" and args[1][1] == "&mut":
+            # the second argument is an out-parameter: the address the kernel chose (oracle)
+            tgt = args[1][2]
+            if tgt[0] != "path" or len(tgt[1]) != 1 or tgt[1][0] not in cx.env:
+                raise Unsupported("mach_vm_remap into a non-local")
+            ln, t = cx.env[tgt[1][0]]
+            al = self.logged_args(args, cx)
+            v = cx.bind(f'Rt.extN "mach_vm_remap" {al}', "remap")
             cx.let(ln, v)
             return ("()", UNIT)
         al = self.logged_args(args, cx)
